@@ -305,6 +305,7 @@ func (r *recordIter) setIntColumnMeta(timeColVals *record.ColVal, idx int, rec *
 	}
 
 	rec.ColMeta[idx].SetLast(cols[lastIndex], timeCols[len(timeCols)-1])
+	swapFirstLastIfDescending(&rec.ColMeta[idx], timeCols)
 	rec.ColMeta[idx].SetMin(minV, minVTime)
 	rec.ColMeta[idx].SetMax(maxV, maxVTime)
 	rec.ColMeta[idx].SetCount(countV)
@@ -367,6 +368,7 @@ func (r *recordIter) setBoolColumnMeta(timeColVals *record.ColVal, idx int, rec 
 	}
 
 	rec.ColMeta[idx].SetLast(cols[lastIndex], timeCols[len(timeCols)-1])
+	swapFirstLastIfDescending(&rec.ColMeta[idx], timeCols)
 	rec.ColMeta[idx].SetMin(minV, minVTime)
 	rec.ColMeta[idx].SetMax(maxV, maxVTime)
 	rec.ColMeta[idx].SetCount(countV)
@@ -430,6 +432,7 @@ func (r *recordIter) setFloatColumnMeta(timeColVals *record.ColVal, idx int, rec
 	}
 
 	rec.ColMeta[idx].SetLast(cols[lastIndex], timeCols[len(timeCols)-1])
+	swapFirstLastIfDescending(&rec.ColMeta[idx], timeCols)
 	rec.ColMeta[idx].SetMin(minV, minVTime)
 	rec.ColMeta[idx].SetMax(maxV, maxVTime)
 	rec.ColMeta[idx].SetCount(countV)
@@ -472,6 +475,7 @@ func (r *recordIter) setStringColumnMeta(timeColVals *record.ColVal, idx int, re
 	}
 
 	rec.ColMeta[idx].SetLast(cols[lastIndex], timeCols[len(timeCols)-1])
+	swapFirstLastIfDescending(&rec.ColMeta[idx], timeCols)
 	rec.ColMeta[idx].SetCount(countV)
 	setColValInAux(timeColVals, idx, ops, rec, -1, firstIndex, -1, lastIndex)
 }
@@ -544,6 +548,17 @@ func setSchemaColVal(field *record.Field, col *record.ColVal, rowIndex int) {
 			col.Init()
 			col.AppendBoolean(value)
 		}
+	}
+}
+
+// swapFirstLastIfDescending: the rows of a descending query arrive latest first, so the
+// value found first by position is the chronologically last one and vice versa.
+func swapFirstLastIfDescending(m *record.ColMeta, times []int64) {
+	if n := len(times); n > 1 && times[0] > times[n-1] {
+		first, firstTime := m.First()
+		last, lastTime := m.Last()
+		m.SetFirst(last, lastTime)
+		m.SetLast(first, firstTime)
 	}
 }
 
